@@ -34,9 +34,11 @@ def choose_cfg(rng, probe):
     f = rng.choice(frs)
     min_nodes = max(1, f["size"] + rng.choice([0, 0, 1, -1])) if rng.random() < 0.6 else rng.choice([4, 6, 8, 10])
     pool = [s for s in sims if s > 0.2] or [0.7]
-    sim_thr = rng.choice([0.0, t[3], t[2], rng.choice(pool), min(1.0, rng.choice(pool) + 2.0 ** -40), 0.65, 0.9])
+    sim_thr = rng.choice([0.0, t[3], t[2], rng.choice(pool), min(1.0, rng.choice(pool) + 2.0 ** -40), 0.65, 0.9, 1.0])
     k = rng.random()
-    if k < 0.55:
+    if k < 0.12:
+        min_sim, max_sim = 1.0, 1.0     # only exact copies: the filter boundaries coincide with similarity 1.0
+    elif k < 0.55:
         min_sim, max_sim = 0.0, 1.0
     elif k < 0.8:
         min_sim, max_sim = rng.choice(pool), 1.0
@@ -122,6 +124,9 @@ def main(tier):
                 fs = sorted(f for f in os.listdir(rep) if f.endswith(".json"))
                 if fs:
                     data = json.load(open(os.path.join(rep, fs[-1])))
+            # the same project and configuration with the default (discovery) file order
+            rc2, data2, err2 = lib.analyze_json(r["dir"], ["--select", "clones"], target=".")
+            r["cli_default"] = data2
         r["cli"] = data
         if data is None or not data.get("clone"):
             ck.broken_ties.append("pyscn analyze produced no clone report in %s (rc=%s): %s" % (r["dir"], rc, (err or "")[-300:]))
@@ -198,7 +203,7 @@ def main(tier):
         jobs.append(("C08_case_%d" % ri, cc.REQ, body))
         r["job"] = len(jobs) - 1
     model_out = None
-    if jobs and not any("Clone/Pairs" in f or "Gen/" in f for f in ck.failed_files):
+    if jobs and not any(f in ("Clone/Pairs.v", "Clone/PairsRun.v") or "Gen/" in f for f in ck.failed_files):
         try:
             model_out = [lib.parse_coq_values(o) for o in lib.coq_eval_many(jobs, workers=8)]
         except Exception as e:
@@ -324,6 +329,15 @@ def main(tier):
             d1, d2 = locset(res, res["detect"]), locset(res2, res2["detect"])
             ck.violation("the set of detected pairs depends on the file order: only in order A %s, only in order B %s" % (
                 sorted(d1 - d2)[:3], sorted(d2 - d1)[:3]), dict(replay, order_a=[f["file"] for f in res["frags"]], order_b=[f["file"] for f in res2["frags"]]))
+
+        if r.get("cli_default") and r["cli_default"].get("clone"):
+            def cliset(c):
+                return {(tuple(sorted([loc_of(p["clone1"]), loc_of(p["clone2"])])), p["similarity"], p["distance"], p["type"]) for p in (c["clone_pairs"] or [])}
+            a, b = cliset(clone), cliset(r["cli_default"]["clone"])
+            stats["order_runs"] += 1
+            if a != b and len(pairs) < 10000:
+                ck.violation("pyscn analyze reports a different set of clone pairs for file order %s than for the default order: only permuted %s, only default %s"
+                             % (r["order"], sorted(a - b)[:2], sorted(b - a)[:2]), replay)
 
         # tie: implementation = model
         if model_out is not None and "job" in r:
